@@ -132,11 +132,13 @@ def gen_trace(recipe):
   X, y = gen.dataset(rng, d=d, n_classes=ncls, per_class=(int(rng.integers(4, 6)) if ncls == 2 else 4) if True else 4, bits=4, sep=1.5)
   X = X / 2.0
   n = len(X)
-  shape_kind = str(rng.choice(['plain', 'plain', 'outlier', 'large_scale']))
+  shape_kind = str(rng.choice(['plain', 'plain', 'outlier', 'large_scale'] + (['huge_scale'] if algo == 'LMNN' else [])))
   if shape_kind == 'outlier':
     X[int(rng.integers(n))] += 40.0          # one sample far from all the others
   elif shape_kind == 'large_scale':
     X = X * 64.0                              # unscaled features: squared distances in the thousands
+  elif shape_kind == 'huge_scale':
+    X = X * 2.0 ** 23                         # raw features of magnitude 1e7 (LMNN: the step size is halved dozens of times)
   k = None if rng.random() < 0.4 else int(rng.integers(1, d + 1))
   init = str(rng.choice(['identity', 'pca', 'random', 'auto', 'array'] + (['lda'] if algo != 'MLKR' else [])))
   kk = k or d
@@ -157,21 +159,29 @@ def gen_trace(recipe):
       reg = float(rng.choice([0.25, 0.5, 0.75]))
       max_iter = 2 if mode == 'zero' else int(rng.integers(4, 9))
       est = gen.LMNN(init=init_arg, n_neighbors=nn, n_components=k, max_iter=max_iter, min_iter=2,
-                     learn_rate=float(rng.choice([1e-3, 1e-2, 1e-6])), regularization=reg, random_state=seed)
+                     learn_rate=float(rng.choice([1e-3, 1e-2, 1e-6, 1e3])), regularization=reg, random_state=seed)
       with LmnnProbe() as pr:
         est.fit(X, y)
       L0 = _initialize_components(kk, X, y, init_arg, random_state=seed)
       events.append({'ev': 'Data', 'algo': algo, 'X': dym(X), 'y': [int(v) for v in np.unique(y, return_inverse=True)[1]],
                      'targets': [[int(t) + 1 for t in row] for row in pr.targets], 'k': nn, 'reg': dy(reg),
                      'learn_rate': dy(est.learn_rate), 'rate_up': dy(1.01)})
-      for (Lc, v, g, act) in pr.evals[:10]:
-        events.append({'ev': 'Eval', 'L': dym(Lc), 'value': dy(v), 'grad': dym(g), 'active': act, 'light': False})
       truncated = len(pr.evals) > 10
-      events.append({'ev': 'Result', 'L': dym(est.components_), 'L_init': dym(L0), 'zero_iterations': bool(len(pr.evals) == 1),
-                     'truncated': truncated})
+      for (Lc, v, g, act) in pr.evals[:(9 if truncated else 10)]:
+        events.append({'ev': 'Eval', 'L': dym(Lc), 'value': dy(v), 'grad': dym(g), 'active': act, 'light': False})
       if truncated:
-        events[-1]['L'] = dym(pr.evals[9][0])       # judge the prefix only: pretend the fit stopped at the 10th evaluation
-        events = events[:-1]                         # (no Result clause on a truncated history)
+        # a LONG history (a step size far too large for the data is halved dozens of times): the first nine evaluations are
+        # judged in full, then the evaluation that produced the returned transformation (objective value only), so that the
+        # clauses about the RESULT - not worse than the initialisation, accepted objectives non-increasing - are still decided
+        last = [i for i, e in enumerate(pr.evals) if np.array_equal(e[0], est.components_)]
+        if last and last[-1] >= 9:
+          Lc, v, g, act = pr.evals[last[-1]]
+          events.append({'ev': 'Eval', 'L': dym(Lc), 'value': dy(v), 'grad': [], 'active': act, 'light': True})
+        else:
+          truncated = 'unmatched'
+      if truncated != 'unmatched':
+        events.append({'ev': 'Result', 'L': dym(est.components_), 'L_init': dym(L0), 'zero_iterations': bool(len(pr.evals) == 1),
+                       'truncated': bool(truncated)})
     else:
       module = nca_mod if algo == 'NCA' else mlkr_mod
       tol = 1e10 if mode == 'zero' else None
